@@ -358,7 +358,7 @@ impl<'a> Gen<'a> {
 
     pub fn stmt(&mut self, depth: usize) {
         let d = depth.saturating_sub(1);
-        let choice = self.rng.below(41);
+        let choice = self.rng.below(44);
         match choice {
             0..=5 => {
                 // local declaration
@@ -703,6 +703,36 @@ impl<'a> Gen<'a> {
                         self.line(&format!("local {}, {} = nil, 3", n1, n2));
                     }
                 }
+            }
+            36 if self.f.luau => {
+                // `//` first where `math` is the library, then where a parameter / local shadows it
+                self.line("local function half(n) return n // 2 end");
+                match self.rng.below(2) {
+                    0 => self.line("local function scaled(math, n) return (n * math.factor) // 3 end"),
+                    _ => self.line("local function scaled(m, n) local math = m return (n * math.factor) // 3 end"),
+                }
+                self.line("ext_p(half(9), scaled({ factor = 2, floor = function(v) ext_p(\"user floor\", v) return -1 end }, 10))");
+            }
+            37 => {
+                // sibling functions with nested local functions of the same name, then a fresh local
+                self.line("local function first() local function helper() return 1 end return helper() end");
+                self.line("local function second(node) local function helper() return node end local total = 10 return total + helper() end");
+                self.line("ext_p(first() + second(2))");
+            }
+            38 => {
+                // several locals of one declaration read only by the until condition
+                self.counter += 1;
+                let i = format!("r{}", self.counter);
+                self.line(&format!("local {} = 0", i));
+                self.declare(&i, Ty::Num);
+                self.line("local function step(i) return i >= 3, i end");
+                self.line("repeat");
+                self.indent += 1;
+                self.line(&format!("{} = {} + 1", i, i));
+                self.line(&format!("local done, value = step({})", i));
+                self.indent -= 1;
+                self.line("until done or value == nil");
+                self.line(&format!("ext_p({})", i));
             }
             35 if self.f.foldable => {
                 // adversarial shapes: a known-true guard in front of a multi-value call, a user
